@@ -17,8 +17,8 @@
          Impl = "checked"  the same with the bounds of proposed_fixes/C06-1..3
        An outcome is <<written, reported>>: how far into the connection's receive
        buffer the server writes, and the length it reports (-1: no callback).
-       JudgeOK is M1/M2 of IpcWire on that outcome.  With Impl = "asfound" the
-       invariant JudgeOK holds exactly outside the recorded triggers KF1..KF3
+       JudgeOK is M1/M2 of IpcWire on that outcome.  With Impl = "asfound"
+       JudgeOK fails exactly on the recorded triggers KF1..KF3 (TriggersExact)
        (IpcWireMC.cfg leaves the triggered classes out through KFSkip;
        IpcWireMC_asfound.cfg does not and must yield the counterexample).                                *)
 EXTENDS IpcWire
@@ -30,7 +30,7 @@ U(x) == IF x < 0 THEN CAP ELSE x          \* an int32 converted to size_t
 AsFound(t, mx, actual, hsz) ==
   IF t = SHM
     THEN IF actual = 0 THEN <<0, -1>>                 \* qb_rb_chunk_peek: nothing there
-         ELSE <<0, U(hsz)>>                           \* msg_process(c, hdr, hdr->size)
+         ELSE <<0, U(EffH(t, actual, hsz))>>          \* msg_process(c, hdr, hdr->size)
     ELSE LET peek == Min(actual, HS)                  \* recv(sock, buf, 16, MSG_PEEK)
              torecv == IF actual >= HS THEN U(hsz) ELSE 0
              got == Min(actual, torecv)               \* recv(sock, buf, to_recv, MSG_WAITALL) on a datagram
@@ -67,7 +67,7 @@ JudgeOK == judged # <<>> =>
 (* the triggers are exactly where the unchanged receive path breaks the property *)
 TriggersExact == (Impl = "asfound" /\ judged # <<>>) =>
                    LET c == judged[1] IN
-                   (KF1(c[1], c[2], c[3], c[4]) \/ KF2(c[1], c[2], c[3], c[4]) \/ KF3(c[1], c[2], c[3], c[4])) \/ JudgeOK
+                   (KF1(c[1], c[2], c[3], c[4]) \/ KF2(c[1], c[2], c[3], c[4]) \/ KF3(c[1], c[2], c[3], c[4])) <=> ~JudgeOK
 (* request classes under a recorded finding (KFSkip) are not judged *)
 AJudge == ~up /\ peers = <<>> /\ \E c \in Requests : ~Skipped(c[1], c[2], c[3], c[4]) /\ judged' = <<c, Outcome(c)>> /\ UNCHANGED vars
 
